@@ -494,7 +494,7 @@ def _show(v):
 def run_library(repo, libfuncs, tier='quick', rule='E6c', only=None):
     """-> (per-function counts, problems [(function, kind, message)])"""
     from .libsim import JsonInterp
-    problems, counts = [], {}
+    problems, counts, history = [], {}, {}
     lib = repo.module('library')
     it = JsonInterp(repo, lib, rule)
     it.oracles.pop('value_compare', None)          # the value comparison is the repository's own here (concrete values)
@@ -559,6 +559,25 @@ def run_library(repo, libfuncs, tier='quick', rule='E6c', only=None):
             m = post_state()
             if m:
                 problems.append((name, 'state', f'{desc}: {m}'))
+                continue
+            # call history: a fresh container result is the caller's - after the caller changes it, the same call again gives the documented result in a new object
+            r1 = got[1]
+            if isinstance(r1, (AList, ADict)) and not any(r1 is v for v in memo.values()) and history.get(name, 0) < 4 and not isinstance(wv, tuple):
+                history[name] = history.get(name, 0) + 1
+                if isinstance(r1, AList):
+                    r1.l.append('changed by the caller')
+                else:
+                    r1.d['changed by the caller'] = True
+                ref_args2 = [_mk_copy(a) for a in args]
+                memo2 = {}
+                ab_args2 = AList([mirror(a, memo2) for a in ref_args2])
+                want2 = reference_call(name, ref_args2)
+                got2 = it.run(lf.func, [ab_args2, ADict({})])
+                counts[name] += 1
+                if got2[0] != 'value' or got2[1] is r1 or same(want2[1], got2[1], memo2) is not None:
+                    shown = 'the very object returned by the first call' if got2[0] == 'value' and got2[1] is r1 else _show(got2[1]) if got2[0] == 'value' else f'{got2[1]}'
+                    problems.append((name, 'history', f'{desc}, called again after the caller changed the array / object the first call returned, gives {shown}; '
+                                                       f'every call returns a new container with the documented contents {_show(want2[1])}'))
     return counts, problems
 
 
